@@ -43,6 +43,24 @@ CLAIMED = {
  'C16': dict(cat='proof', tech='constant propagation of the anchor values through kernels extracted from MIR; affine/error analysis along the grey axis; Lipschitz bound of the cube root',
    text='Anchors are points or the one-parameter grey axis: the extracted kernels are folded at the anchor constants (exact machine arithmetic of the analyser, through the real powf/cbrtf bodies) for all matrices (standard and primaries-derived), ranges, depths, curves and primaries, and bounded along the whole grey axis for YUV, primaries, XYB and HSL.',
    ref='3/C16', note='XYB grey clause conditional on A-cbrt; log/HLG curve anchors on A-libm. ' + TB),
+ 'C03': dict(cat='proof', tech='closed-form extraction of each curve from MIR (helpers as function summaries) + interval branch and bound against the standard formula; match-table rules; counter-example search on the real kernels',
+   text='Partial claim (formula level): each of the 14x2 scalar curves is extracted from MIR as a piecewise closed form with powf/expf as applications and shown, by interval branch and bound over all of [0,1], to agree with the standard\'s defining formula within a fifth of the budget when the helpers are the ideal functions; Linear is the identity expression and the BT.1886 aliases have the identical kernel. Constant folding of the real kernels at fixed points can refute the full statement but proves nothing.',
+   ref='3/C03', note='NOT decided: that the polynomial powf/expf approximations keep the curves within 2.5e-4 / 5.7e-4 (no verified-numerics tool available; DESIGN.md section 5). A-elem, host libm within 1 ulp, xvYCC on [0,1] read as the BT.1886 pair. ' + TB),
+ 'C06': dict(cat='proof', tech='constant propagation of the primaries transform through MIR (bit-exact f32 matrix) + exact rational comparison with the CIE/Bradford derivation; a-priori rounding bound',
+   text='For the 11 supported primaries and both directions the 3x3 transform the code builds is obtained by constant propagation (exact binary32 semantics), read off the linear per-pixel kernel and compared in rational arithmetic with M_out^-1*Bradford*M_in from the H.273 chromaticities; white->white, there-and-back and the bit-exact pass-through for identical primaries are decided on the same data.',
+   ref='3/C06', note=TB),
+ 'C10': dict(cat='proof', tech='closed-form extraction of both curve directions from MIR, symbolic composition, interval branch and bound of |G(F(x))-x| with ideal elementary functions; counter-example search on the real kernels',
+   text='Partial claim (formula level): to_gamma(to_linear(x)) is composed symbolically from the two extracted kernels and shown to be the identity on all of [0,1] within a fifth of the budget when powf/expf are ideal - i.e. the two dispatch tables select mutually inverse formulas with matching constants.',
+   ref='3/C10', note='NOT decided: the approximation error of the composed polynomial powf\'s. A-elem. ' + TB),
+ 'C18': dict(cat='proof', tech='interval + NaN-flag analysis of the helper bodies with unconstrained arguments; sign-parity dataflow; piecewise interval analysis; counter-example search by constant folding',
+   text='Partial claim: totality of powf/expf/cbrtf/multiply_add for every f32 bit pattern in all build configurations (every assert and the unchecked conversion discharged with arguments TOP), oddness of cbrtf by sign-parity of every operation, and the saturation clauses of expf (+inf on [89,1e38], 0 on [-1e38,-88]) by interval analysis per integer cell of log2(e)*x.',
+   ref='3/C18', note='NOT decided: the accuracy numbers (1 ulp, 2.5e-4+8e-6|y|, 1e-5); constant folding at fixed points can only refute them. ' + TB),
+ 'C19': dict(cat='proof', tech='abstract interpretation of MIR with symbolic entries; exact polynomial identity with the textbook definition + a-priori rounding bound; rational-function identity and divisor analysis for invert (sympy)',
+   text='Every public method of Matrix/RowVector/ColVector (f32, f64; FMA and non-FMA builds) is interpreted with symbolic entries in [-2,2]; each result polynomial must be identical to the textbook one and the rounding bound below 1e-5; invert is shown to be the rational inverse on both sides with every executed division\'s divisor vanishing only where det does.',
+   ref='3/C19', note='NOT decided: A*invert(A) within 1e-4 under rounding for |det| >= 0.5 (first-order bound does not close). ' + TB),
+ 'C20': dict(cat='proof', tech='cargo feature resolution (manifest analysis) + cfg reachability and sibling-expression identity on the MIR of the build configurations',
+   text='Partial claim: the feature wiring (fastmath on by default, off with --no-default-features) is read from cargo\'s own resolution; in the fastmath-off build powf/expf/cbrtf are exactly the libm calls; the fused and unfused arms of every FMA switch denote a*b+c; the conversion kernels outside the helpers are identical expressions in both builds; C01/C02/C08 budgets are re-established in the FMA build.',
+   ref='3/C20', note='NOT decided: numeric agreement of the fastmath and libm builds within the fastmath budget (approximation accuracy). ' + TB),
 }
 NA_REASON = {}
 
